@@ -338,7 +338,7 @@ def main(mod_id, tier, seed):
         print('KNOWN-FINDING: property=%s %s [%d states]' % (mod_id, what, cnt))
     rc = 0
     replay_paths = []
-    for v, cnt in new_violations[:20]:
+    for v, cnt in new_violations[:int(os.environ.get('T4MC_MAXVIOL', '12'))]:
         try:
             again = recheck_fresh(mod_id, tier, v)
         except Exception as e:
